@@ -458,6 +458,8 @@ def run(ctx):
     check_wfn_atom_record(ctx, "R17")
     ctx.rule("R18", "CHARMM crd atom record: every column reaches its slot (evaluated)", "residue number and residue id swapped, or the weight column read as a coordinate")
     check_charmm_record(ctx, "R18")
+    ctx.rule("R26", "MWFN $Centers record: atomic number, nuclear (core) charge and position come from their own columns (evaluated)", "the core charges copied from the atomic-number column: files of ECP calculations load with the wrong charge")
+    check_mwfn_centers(ctx, "R26")
     ctx.rule("R19", "Gaussian-log five-column blocks are unpacked to the right matrix elements, both triangles (evaluated)", "the mirror store dropped, the row-label column taken as a value, or the second block shifted")
     check_gaussianlog_blocks(ctx, "R19")
     ctx.rule("R20", "volumetric data: every number of the file lands at its grid point (cube: C order; VASP: x fastest) (evaluated)", "densities transposed between x and z, or shifted by one after a ragged line")
@@ -969,6 +971,46 @@ def check_wfn_atom_record(ctx, rid):
         ctx.violate(rid, f"WFN nucleus records, {bad}", f, f.node, construct=f"wfn atom record: {bad}"[:160])
     else:
         ctx.ok(rid, "WFN nucleus records: symbols (O, CL, Cl, H12) and three coordinates that fill their columns arrive in their slots", f"{f.module.relpath}:{f.lineno}")
+
+
+def check_mwfn_centers(ctx, rid):
+    """The MWFN atom reader on a model `$Centers` section of two atoms whose atomic number, nuclear charge and
+    coordinates all differ (iodine with an effective core charge of 7, hydrogen): every column reaches its own slot."""
+    from ..accessors import AccessorEval, Raised, Rec
+    from ..symarr import NotSymbolic
+
+    prog = ctx.prog
+    f = prog.funcs.get("iodata.formats.mwfn._load_helper_atoms")
+    if f is None:
+        raise AnalysisError("mwfn._load_helper_atoms not found")
+    licls = prog.cls("iodata.utils.LineIterator")
+    A = 1000.0
+    lines = ["# Atom information\n", "$Centers\n", "    1 I    53   7.0    0.12500000   -1.50000000    2.25000000\n", "    2 H     1   1.0   -0.37500000    0.62500000    1.87500000\n", "\n"]
+    lit = Rec(licls, filename="F", fh=iter(lines), lineno=0, stack=[])
+    try:
+        ev = AccessorEval(prog, licls, limit=4000)
+        ev.module = f.module
+        ev._globals = {("iodata.utils", "angstrom"): A}
+        res = ev.run_free(f, [lit, 2], {})
+    except Raised as exc:
+        ctx.violate(rid, f"MWFN $Centers: the reader raises {exc.args[0]} on two well-formed records", f, f.node, construct="mwfn centers: raises")
+        return
+    except NotSymbolic as exc:
+        raise AnalysisError(f"mwfn._load_helper_atoms is outside the evaluation whitelist: {exc}") from exc
+    num = lambda v: np.asarray(v, dtype=float)
+    bad = None
+    if not isinstance(res, dict):
+        bad = "the reader does not return a dictionary of arrays"
+    elif num(res.get("atnums")).tolist() != [53.0, 1.0]:
+        bad = f"atomic numbers [53, 1] come back as {num(res.get('atnums')).tolist()}"
+    elif num(res.get("atcorenums")).tolist() != [7.0, 1.0]:
+        bad = f"nuclear charges [7.0, 1.0] (fourth column) come back as {num(res.get('atcorenums')).tolist()}"
+    elif np.abs(num(res.get("atcoords")) - np.array([[0.125, -1.5, 2.25], [-0.375, 0.625, 1.875]]) * A).max() > 1e-6:
+        bad = f"positions come back as {(num(res.get('atcoords')) / A).tolist()} angstrom"
+    if bad:
+        ctx.violate(rid, f"MWFN $Centers record, {bad}", f, f.node, construct=f"mwfn centers: {bad}"[:160])
+    else:
+        ctx.ok(rid, "MWFN $Centers: atomic number, nuclear charge and angstrom position of two model atoms come from their own columns", f"{f.module.relpath}:{f.lineno}")
 
 
 def check_charmm_record(ctx, rid):
